@@ -35,6 +35,7 @@ fi
 if [ -n "$(git -C /repo status --porcelain --untracked-files=no)" ]; then echo "/repo is dirty; refusing"; exit 2; fi
 git -C /repo apply "$SEED/patch.diff" || { echo "$ID: patch does not apply to /repo"; exit 2; }
 trap 'git -C /repo checkout -- . ; [ -n "${WT:-}" ] && git -C /repo worktree remove --force "$WT" >/dev/null 2>&1' EXIT
+[ -n "${SEED_RENAME:-}" ] && "$VERIF/tools/renameall.sh" /repo >/dev/null
 "$VERIF/gbv.sh" build
 CAUGHT=""
 mkdir -p "$VERIF/out/seeds/$ID"
